@@ -12,10 +12,35 @@ from props.base import to_request, corpus_for  # noqa: F401
 
 ID = 'C02'
 LEAN_MODULES = ['PybtexModel.Props.C02']
-THEOREMS = {}
-RULE = ''
-TRUSTED = []
-ASSUMPTIONS = []
+THEOREMS = {
+    'C02_person_roundtrip': 'persons: for every person satisfying the explicit predicate WFPerson, Person(_format_name(p)) = Person(str(p)) = p (same five token lists, nothing reported) and both texts coincide',
+    'C02_person_roundtrip_comma_needed': 'persons: kernel-evaluated witnesses for repair C02-1 - "Last, Jr" is read with Jr as first name and "World Bank" with World as first name, "Last, Jr," and "World Bank," are read back correctly',
+    'C02_person_roundtrip_backslash_neg': 'persons: the proviso "no token ends in a backslash" cannot be dropped (Person("A\\\\ B C") is written "C, A\\ B" and read back without the backslash)',
+    'C02_person_parts_roundtrip': 'persons, YAML / BibTeXML path: Person(first=, middle=, prelast=, last=, lineage=) from the five get_part_as_text strings gives the person back whenever its tokens are clean (no structural condition)',
+    'C02_wfperson_of_parse': 'domain: every person Person(name) produces for a balanced name with a von/Last token satisfies WFPersonCore (= WFPerson minus "no token ends in a backslash"), so the claimed domain is what the reader itself produces',
+    'C02_bibtex_field': 'bibtex, stage 1: a balanced value the encoder leaves alone is written ,\\n    name = "value" ({value} when it contains a double quote) and that spelling is a well-formed literal for the .bib reader',
+    'C02_bibtex_entry': 'bibtex, stage 2: the text of an entry of the domain is the C01 rendering of the command (roles as " and "-joined name lists, then fields) under the writer layout, the command is well-formed for C01 and denotes exactly the entry; every name list is read back as the same persons',
+    'C02_bibtex_roundtrip': 'bibtex, stage 3: WFDb d and encode = id on strings free of # % & _ ~  =>  the writer succeeds and parse_string(text) raises nothing, reports nothing and returns the same keys in order, entry types as written, fields with values in order, persons per role in order, and the preamble (as one string)',
+    'C02_bibtex_roundtrip_example': 'bibtex: the exact writer text of a two-entry example using every construct (kernel evaluation)',
+    'C02_yaml_logic': 'yaml: load(dump(t)) = t  =>  process_entry(_to_dict(d)) = d on WFDbTree true (field order, roles on lower-cased keys, the type key, five name parts, preamble as one string), nothing reported',
+    'C02_xml_logic': 'bibtexml: load(dump(t)) = t  =>  process_entry(_write(d)) = d on WFDbTree false (field order, roles in any letter case, person elements with five name parts); the format carries no preamble',
+    'C02_chain': 'chains: for ANY list of formats with the database in the domain of each, write / convert / ... / read ends with the same entries; the preamble comes back as one string and is lost exactly when BibTeXML is on the way',
+    'C02_lower': 'lower-casing: with preserve_case=False and at least one conversion the chain ends with lowerSpec d (keys, entry types, field names, role names lower-cased, everything else and every order untouched)',
+    'C02_lower_only_case': 'lower-casing: BibliographyData.lower() = lowerSpec (nothing reported) on identifiers distinct up to case; lowerSpec keeps values, persons, orders and preamble and only lower-cases keys / types / field names / role names; the domains are closed under it',
+}
+RULE = ('databases as JSON (entries with key, type as written, ordered fields, ordered roles with persons as five token lists, preamble list) '
+        'built through the public constructors; ES: every person Person(name) yields for the token shapes of C04 (<=3 tokens x comma placements) '
+        'plus small databases (1 entry x field names x the value alphabet with braces, quotes, backslash, @ , = digits; all ordered value pairs; '
+        'person pairs per role spelling; ordered key pairs x preambles) x {bibtex, yaml, bibtexml} x chains <=3 x preserve_case; R: databases read '
+        'by the real reader from bibgen documents, databases built directly from Entry/Person objects (every 10th through convert() on real files), '
+        'an outside-domain stream (# % & _ ~, non-normalised white space, unbalanced braces, field "type", empty roles: correspondence only), '
+        'reader-only YAML/XML trees (non-string scalars, every person element form); pickle and eval(repr()) executed for real (oracle only); '
+        'non-trivial = a database with a field or person / a person with >1 token; distinct by case JSON')
+TRUSTED = ['PyYAML (yaml.dump / yaml.load with the ordered dumper/loader), xml.sax XMLGenerator + ElementTree, latexcodec, pickle: parameters of the '
+           'model with the hypotheses load(dump t) = t resp. encode = id on strings free of # % & _ ~; exercised for real on every case, not proved',
+           'the harness keeps databases PyYAML / XML cannot represent out of the claimed domain (U+0085; XML names for identifiers, XML characters)']
+ASSUMPTIONS = ['no non-ASCII letters in identifiers (str.lower is ASCII in the model)',
+               'the check is meant for a tree with proposed_fixes/C02-1, C02-2, C02-3 applied; on the unpatched tree it reports those three defects']
 
 FORMATS = ('bibtex', 'yaml', 'bibtexml')
 PARTS = ('first', 'middle', 'prelast', 'last', 'lineage')
@@ -691,5 +716,25 @@ def _tree_cases(rng, thorough):
     return cases
 
 
-LEVEL_TEXT = ''
-LEVEL_NOTE = ''
+LEVEL_TEXT = ('Machine-checked proofs (Lean 4) about function-by-function models of the BibTeX writer (quote, check_braces, _format_name, '
+              '_write_persons, _write_preamble, write_stream), Person.__str__ / get_part_as_text, the YAML writer/reader (_to_dict, process_entry) and '
+              'the BibTeXML writer/reader (_write, process_entry, process_person) over abstract value / element trees, Entry.lower / '
+              'BibliographyData.lower and convert(): (1) for EVERY person in the explicit decidable domain WFPerson - proved to be what Person(name) '
+              'itself produces (C02_wfperson_of_parse) - the written name and str() are read back as the same person, and so are the five part '
+              'texts; (2) for EVERY database in the explicit decidable domain WFDb the BibTeX writer\'s text is read back by the .bib reader model of '
+              'C01/C10 without error as the same ordered database (staged: field, entry = a C01 rendering + its denotation, database); (3) for YAML '
+              'and BibTeXML, pybtex\'s own conversion logic is the identity given a lossless serialiser; (4) hence any chain of formats preserves the '
+              'entries, and lower-casing changes only the letter case of keys, types, field names and roles. The models are tied to the code by the '
+              'differential check, which also runs pickle and eval(repr()) for real.')
+LEVEL_NOTE = ('Modelled and proved: pybtex\'s writer / reader / lower / convert logic. ASSUMED (hypotheses of the theorems, exercised by the correspondence '
+              'on every case, never proved): PyYAML and xml.* are lossless on the trees pybtex hands them (load(dump t) = t), latexcodec changes only '
+              '# % & _ ~ (verified on every single code point by a probe), pickle. Not modelled: Python repr/eval and pickle (oracle only); the white space '
+              '_PrettyXMLWriter writes for indentation (abstracted to one newline, the reader strips it); str() of non-string YAML scalars is supplied by '
+              'the harness. Domain (explicit decidable predicates in Spec/BibWrite.lean): values balanced with nesting <= 100, white-space-normalised '
+              '(for person fields also inside braces) and free of # % & _ ~; NAME identifiers, keys scannable in braces, no duplicates up to case; '
+              'roles non-empty; persons WFPerson (what Person(name) yields, no token ending in a backslash, a last name present) whose written name '
+              'contains no brace-level-0 " and "; YAML: no field called "type"; BibTeXML: the preamble is not carried. The model follows the code AFTER '
+              'the proposed repairs C02-1 (empty First part kept: "Last, Jr," / "World Bank,"), C02-2 (BibTeXML role detection case-insensitive), '
+              'C02-3 (BibliographyData.__repr__ no longer corrupted by keys occurring earlier in the text); Model/Names.lean Person.toStr is the pre-repair '
+              '__str__ (C04 owns it) - the theorems use BibWrite.personStr. Trusted: Lean kernel; axioms propext/Classical.choice/Quot.sound; the tie '
+              'between models and code is differential testing.')
